@@ -230,6 +230,8 @@ pub struct ParquetMetaDataPushDecoder {
     buffers: crate::util::push_buffers::PushBuffers,
     /// Encryption API
     metadata_parser: MetadataParser,
+    /// Offset of the file metadata, once its location is known from the footer
+    metadata_start: Option<u64>,
 }
 
 impl ParquetMetaDataPushDecoder {
@@ -252,6 +254,7 @@ impl ParquetMetaDataPushDecoder {
             offset_index_policy: PageIndexPolicy::Optional,
             buffers: crate::util::push_buffers::PushBuffers::new(file_len),
             metadata_parser: MetadataParser::new(),
+            metadata_start: None,
         })
     }
 
@@ -399,6 +402,7 @@ impl ParquetMetaDataPushDecoder {
                         })?;
                     let metadata_end = metadata_start + metadata_len;
                     let metadata_range = metadata_start..metadata_end;
+                    self.metadata_start = Some(metadata_start);
 
                     if !self.buffers.has_range(&metadata_range) {
                         self.state = DecodeState::ReadingMetadata(footer_tail);
@@ -427,6 +431,17 @@ impl ParquetMetaDataPushDecoder {
                         self.state = DecodeState::Finished;
                         return Ok(DecodeResult::Data(*metadata));
                     };
+
+                    // Same sanity check as `ParquetMetaDataReader`: the page index
+                    // lies in front of the file metadata
+                    if let Some(metadata_start) = self.metadata_start {
+                        if page_index_range.end > metadata_start {
+                            return Err(ParquetError::EOF(format!(
+                                "Parquet file too small. Page index range {page_index_range:?} overlaps with file metadata {:?}",
+                                metadata_start..file_len
+                            )));
+                        }
+                    }
 
                     if !self.buffers.has_range(&page_index_range) {
                         self.state = DecodeState::ReadingPageIndex(metadata);
